@@ -899,23 +899,27 @@ class SqliteCaseReader(BaseCaseReader):
         children = OrderedDict()
         cases[parent_case.name] = children
 
-        # return all cases in the global iteration table that precede the given case
-        # and whose coordinate is prefixed by the given coordinate
+        # all cases in the global iteration table that precede the given case
+        # and whose coordinate extends the given coordinate, i.e. its descendants
+        prefix = coord + '|'
+        inside = []
         for i in range(0, parent_case.counter - 1):
             global_iter = global_iters[i]
             table, row = global_iter[1], global_iter[2]
             if table == 'solver':
                 case_coord = solver_cases[row - 1]
-                if case_coord.startswith(coord):
-                    parent_coord = '|'.join(case_coord.split('|')[:-2])
-                    if parent_coord == coord:
-                        children.update(self._list_cases_recurse_nested(case_coord))
             elif table == 'system':
                 case_coord = system_cases[row - 1]
-                if case_coord.startswith(coord):
-                    parent_coord = '|'.join(case_coord.split('|')[:-2])
-                    if parent_coord == coord:
-                        children.update(self._list_cases_recurse_nested(case_coord))
+            else:
+                continue
+            if case_coord.startswith(prefix):
+                inside.append(case_coord)
+
+        # the children are the descendants that have no other recorded case between themselves
+        # and the parent (the levels in between need not have been recorded)
+        for case_coord in inside:
+            if not any(case_coord.startswith(other + '|') for other in inside):
+                children.update(self._list_cases_recurse_nested(case_coord))
 
         return cases
 
